@@ -10,12 +10,14 @@ axis is TAKE, numpy.append is CONCAT2, concatenate is a left fold of CONCAT2.
 """
 import numpy, z3
 from . import sym
-from .sym import SymInt, SymBool, SymReal, wrap, _t, cur, Unsupported
+from .sym import SymInt, SymBool, SymReal, wrap, _t, cur, Unsupported, fresh_int
 
 ARR = z3.DeclareSort("Arr")
 I = z3.IntSort()
 LENF = z3.Function("LEN", ARR, I, I)
 TAKE = z3.Function("TAKE", ARR, ARR, I, ARR)
+SLICE = z3.Function("SLICE", ARR, I, I, ARR)
+NONE_IX = z3.Int("NONE_IX")
 DELETE_A = z3.Function("DELETE_A", ARR, ARR, I, ARR)
 DELETE_I = z3.Function("DELETE_I", ARR, I, I, ARR)
 DELETE_S = z3.Function("DELETE_S", ARR, I, I, I, ARR)
@@ -130,6 +132,23 @@ class OArr(numpy.ndarray):
     def __getitem__(self, key):
         if isinstance(key, OArr):
             return a_take(self, key, 0)
+        if isinstance(key, slice) and key.step is None and all(
+                v is None or isinstance(v, (int, SymInt, numpy.integer)) for v in (key.start, key.stop)):
+            if key.start is None and key.stop is None:
+                return OArr(self._term, self._shape, self._dt)        # a[:] : a view of everything
+            used("a[lo:hi] on an opaque array: opaque SLICE(a, lo, hi) along axis 0 (None bounds are the constant NONE_IX); "
+                 "the length of the result is a fresh non-negative integer not larger than the length of a")
+            ln = fresh_int("slicelen", 0)
+            cur().assume(ln.t <= _t(self._shape[0]))
+            lo = NONE_IX if key.start is None else _t(key.start)
+            hi = NONE_IX if key.stop is None else _t(key.stop)
+            return OArr(SLICE(self._term, lo, hi), (ln,) + tuple(self._shape[1:]), self._dt)
+        if isinstance(key, tuple) and key and all(isinstance(k, IxArg) for k in key) and len(key) <= self.ndim \
+                and [k.pos for k in key] == list(range(len(key))):
+            out = self
+            for k in key:
+                out = a_take(out, k.arr, k.pos)
+            return out
         if isinstance(key, tuple):
             arrs = [(d, k) for d, k in enumerate(key) if isinstance(k, OArr)]
             rest = [k for k in key if not isinstance(k, OArr)]
@@ -217,7 +236,30 @@ def a_take(a, indices, axis=None, **kw):
         raise Unsupported("take with ndim != 1 index array")
     shp = list(a._shape)
     shp[ax] = indices._shape[0]
-    return OArr(TAKE(a._term, indices._term, ax), shp, a._dt)
+    return OArr(_take_term(a._term, indices._term, ax), shp, a._dt)
+
+
+def _take_term(t, idx, ax):
+    """TAKE along different axes commute: nested TAKEs are kept in ascending axis order (canonical form), so that the order in
+    which a routine walks the axes does not matter for the comparison of terms"""
+    if z3.is_app(t) and t.decl().eq(TAKE) and z3.is_int_value(t.arg(2)) and t.arg(2).as_long() > ax:
+        return TAKE(_take_term(t.arg(0), idx, ax), t.arg(1), t.arg(2))
+    return TAKE(t, idx, ax)
+
+
+class IxArg:
+    """one element of numpy.ix_(...) : index vector number `pos` of an open mesh"""
+
+    def __init__(self, arr, pos):
+        self.arr, self.pos = arr, pos
+
+
+def a_ix_(*args):
+    used("numpy.ix_(i0, i1, ..): a[numpy.ix_(i0, .., ik)] = TAKE(..TAKE(TAKE(a, i0, 0), i1, 1).., ik, k), remaining axes untouched")
+    for x in args:
+        if not isinstance(x, OArr) or x.ndim != 1:
+            raise Unsupported("numpy.ix_ with an argument that is not a symbolic vector")
+    return tuple(IxArg(x, k) for k, x in enumerate(args))
 
 
 def a_delete(a, obj, axis=None):
@@ -333,7 +375,7 @@ def a_array(a, dtype=None, copy=True, **kw):
 
 A1_FUNCS = {"take": a_take, "delete": a_delete, "insert": a_insert, "append": a_append,
             "concatenate": a_concatenate, "lexsort": a_lexsort, "unique": a_unique, "copy": a_copy,
-            "array": a_array, "asarray": a_array}
+            "array": a_array, "asarray": a_array, "ix_": a_ix_}
 
 
 def o_empty(shape, dtype=float, **kw):
